@@ -321,10 +321,14 @@ func runCheck(prop, tier string, seed uint64, budget time.Duration, maxRuns int)
 		fmt.Println("MACHINERY:", machineErr)
 		return 2
 	}
-	// determinism spot check: two runs re-executed, journals must be identical
+	// determinism spot check: two runs re-executed, journals must be identical. A mismatch on a tree that shows no
+	// violation is machinery trouble; together with violations it is a symptom of them (e.g. memory corruption).
 	if err := c.determinismSpot(plans[0], 2); err != nil {
-		fmt.Println("MACHINERY: determinism:", err)
-		return 2
+		if len(sigSeen) == 0 {
+			fmt.Println("MACHINERY: determinism:", err)
+			return 2
+		}
+		fmt.Println("NOTE: results are not reproducible on this tree (reported together with the violations below):", tail(err.Error(), 200))
 	}
 
 	// violations: known findings, minimise, replay, report
@@ -425,8 +429,9 @@ func journalKey(rr *RunResult) string {
 	}
 	if rr.End != nil {
 		if rr.Spec != nil && rr.Spec.Pool == "real" {
-			// fidelity runs delegate to the runtime's sync.Pool, whose refills are not ours to decide: step counts may differ
-			fmt.Fprintf(&sb, "sw=%v hash=%v", rr.End["switches"], rr.End["sched_hash"])
+			// fidelity runs delegate to the runtime's sync.Pool, whose refills are not ours to decide: step counts (and
+			// with them the points at which a multi-task schedule switches) may differ; results may not
+			sb.WriteString("pool=real")
 		} else {
 			fmt.Fprintf(&sb, "steps=%v sw=%v hash=%v", rr.End["steps"], rr.End["switches"], rr.End["sched_hash"])
 		}
